@@ -44,6 +44,7 @@
 (*   set h   machine instruction that leaves hazard h for the next one     *)
 (*   dep h   machine instruction that is diagnosed (sev: warning / error)  *)
 (*           if hazard h is current; after an error it lays down no code   *)
+(*   sd h    machine instruction that does both (reads h, then writes it)  *)
 (*   use     machine instruction whose code depends on the sticky mode     *)
 (*   mode    ASSUME-like statement switching the sticky mode (h = value)   *)
 (*   pseudo  data / symbol definition / label: not seen by MakeCode        *)
@@ -64,6 +65,7 @@ S(k, h, sev) == [k |-> k, h |-> h, sev |-> sev]
 Stmts == {S("n", "", ""), S("pseudo", "", ""), S("fwd", "", ""), S("use", "", ""), S("mode", "1", "")}
          \cup {S("set", h, "") : h \in Haz}
          \cup {S("dep", h, sv) : h \in Haz, sv \in {"warn", "err"}}
+         \cup {S("sd", h, "warn") : h \in Haz}
 
 FreshG == [cur |-> {}, nxt |-> {}, mode |-> "0"]
 
@@ -85,6 +87,8 @@ Exec(g, s) ==
             [] s.k = "dep" -> LET hit == s.h \in g1.cur
                               IN [g |-> g1, code |-> IF hit /\ s.sev = "err" THEN <<>> ELSE <<"dep", s.h>>,
                                   diag |-> IF hit THEN s.sev ELSE ""]
+            [] s.k = "sd"  -> [g |-> [g1 EXCEPT !.nxt = {s.h}], code |-> <<"sd", s.h>>,
+                               diag |-> IF s.h \in g1.cur THEN s.sev ELSE ""]
             [] s.k = "use" -> [g |-> g1, code |-> <<"use", g1.mode>>, diag |-> ""]
             [] OTHER       -> [g |-> g1, code |-> <<s.k, "">>, diag |-> ""]
 
@@ -145,7 +149,7 @@ OnlyTailHead(hist) ==
   IN \A i \in 1..Len(hist) : j[i] # Alone(hist[i]) =>
         /\ Shifting(hist[i])
         /\ \E p \in 1..(i - 1) : /\ GenPred(hist, i, p)
-                                 /\ LastShift(hist[p].text).k = "set"
-                                 /\ FirstShift(hist[i].text).k = "dep"
+                                 /\ LastShift(hist[p].text).k \in {"set", "sd"}
+                                 /\ FirstShift(hist[i].text).k \in {"dep", "sd"}
                                  /\ LastShift(hist[p].text).h = FirstShift(hist[i].text).h
 =============================================================================
